@@ -8,7 +8,7 @@ must give the same instance, and the set of feasible leaves must equal Adsg.allR
 from .. import gen
 from ..explore import Walk
 
-KINDS = {'confirmed-set', 'next-choices', 'leaf-nodes', 'leaf-not-final', 'choice-node-left', 'order-dependence',
+KINDS = {'api-exc', 'confirmed-set', 'next-choices', 'leaf-nodes', 'leaf-not-final', 'choice-node-left', 'order-dependence',
          'reachable-set-missing', 'reachable-set-extra', 'apply-exc', 'feasible-leaf-not-admissible'}
 RULE = ('seeded random DSGs from streams tame (unshared options, derivation cycles, 1-2 start nodes), tree '
         '(hierarchical, conditional choices) and shared (options shared between choices, several choices per node, '
@@ -36,7 +36,9 @@ def stream_cls(spec, stream):
     opts = [o for c in spec['sel'] for o in c['opts']]
     origins = [c['o'] for c in spec['sel']]
     shared = len(set(opts)) != len(opts) or bool(set(opts) & set(spec['start'])) or len(set(origins)) != len(origins)
-    return {'stream': stream, 'shared_options': shared}
+    return {'stream': stream, 'shared_options': shared,
+            'two_choices_same_origin': len(set(origins)) != len(origins),
+            'option_in_two_choices': len(set(opts)) != len(opts)}
 
 
 def check_graph(ctx, rep, spec, stream, kinds=KINDS):
@@ -52,7 +54,7 @@ def check_graph(ctx, rep, spec, stream, kinds=KINDS):
 
 
 def run(ctx, rep, kinds=KINDS):
-    n = ctx.pick(600, 20000)
+    n = ctx.pick(1500, 30000)
     weights = [s for s, k in STREAMS for _ in range(k)]
     i = 0
     for i in range(n):
